@@ -400,6 +400,9 @@ type FuncContract struct {
 	NoPanic       bool
 	Trusted       bool // contract assumed, body not checked
 	Inline        bool
+	// ScopePkg: a trusted contract that is applied only while a function of this package is verified
+	// (`scope package`): elsewhere the callee is translated as if it had no contract
+	ScopePkg      string
 	ParamNames    []string
 	ResultNames   []string
 	Requires      []*Clause
@@ -585,6 +588,11 @@ func parseContractFile(path, pkgPath string) (*ContractFile, error) {
 				}
 			case "inline":
 				cur.Inline = true
+			case "scope":
+				if strings.TrimSpace(rest) != "package" {
+					return nil, fmt.Errorf("%s:%d: scope: only `scope package` is known", path, ln+1)
+				}
+				cur.ScopePkg = cur.PkgPath
 			case "note":
 				cur.Notes = append(cur.Notes, rest)
 			case "replay":
